@@ -32,6 +32,8 @@ def cells(tier):
         out.append(cell(f"s{size} A3 cancel0 flush slowccb0 ret/exc", sc, MON))
     sc = scen(pool(2), [[A("A", 2)], [M("M", 2, 1)], [FLUSH_RE]] + ([] if q else [[FLUSH_RE]]), outcomes=["ret", "exc"], ecb="slow", slow_ids=[1])
     out.append(cell("s2 A2|M2/1 exc flushRE x2 slowecb1", sc, MON))
+    sc = scen(pool(2), [[A("A", 2)], [cancel(rid("A", 0))], [FLUSH], [["cancel_op", 2]], [FLUSH_RE]], outcomes=["ret"], ecb="slow", ccb="slow", slow_ids=[0])
+    out.append(cell("s2 A2 cancel0 flush flush-caller-cancelled flushRE slowcbs", sc, MON))
     sc = scen(pool(2, "SimpleTaskPool", ecb="slow", ccb="plain", slow_ids=[0]), [[S("S", 3)], [["stop", 1]], [FLUSH], [FLUSH]], outcomes=["ret"])
     out.append(cell("simple s2 S3 stop1 flush x2 slowecb0", sc, MON))
     if not q:
